@@ -168,14 +168,19 @@ def aliasMapOf {V : Type} (fields : List (Key × PField V)) : List (Key × Key) 
 def ciNamesOf {V : Type} (fields : List (Key × PField V)) : List Key :=
   fields.flatMap fun kf => if kf.2.ci then kf.2.allAliases else []
 
-/-- `apply_fields` (field.py:702-727): dependencies resolved through the alias map to the *output name*
-of the target field (after fixes/C05-dependency-name.patch; before it the key in `fields` was kept, which
-for a case-insensitive field is the lower-cased name and never matched the parsed result). -/
+/-- the key in `fields` a dependency refers to: through the alias map, else as it is; if that is no key, the
+field whose *output name* it is (a field taken over from a base class was resolved to output names there —
+fixes/C05-inherited-dependency-name.patch) -/
+def depKey {V : Type} (fields : List (Key × PField V)) (amap : List (Key × Key)) (dep : Key) : Option Key :=
+  let key := (dget dep amap).getD dep
+  if dhas key fields then some key
+  else (fields.find? fun kf => kf.2.name = dep).map (·.1)
+
+/-- `apply_fields` (field.py:702-735): dependencies resolved to the *output name* of the target field. -/
 def resolveDeps {V : Type} (fields : List (Key × PField V)) (amap : List (Key × Key))
     (deps : List Key) : List Key :=
   deps.foldl (fun acc dep =>
-    let key := (dget dep amap).getD dep
-    match dget key fields with
+    match (depKey fields amap dep).bind fun key => dget key fields with
     | some f => if acc.contains f.name then acc else acc ++ [f.name]
     | none => acc) []
 
@@ -185,21 +190,55 @@ def assignStrategy {V : Type} (o : Opts V) (ciNames : List Key) (amap : List (Ke
   | some b => b
   | none => !ciNames.isEmpty || !amap.isEmpty || o.ignoreRequired || o.addition == .allow   -- `or self.options.addition`: truthy only
 
+/-- A class declaration, possibly a subclass of earlier declarations. -/
 structure ClassDecl (V : Type) where
-  fields : List (FieldDecl V)
-  opts : Opts V                 -- __options__ as written
+  fields : List (FieldDecl V)   -- declared in this class body (new fields, or replacing a field taken over)
+  opts : Opts V                 -- __options__ as written in the body (if `ownOpts`)
   additionTyped : Bool := false
+  bases : List Nat := []        -- data-class bases, as indices of earlier declarations, in `__bases__` order
+  ownOpts : Bool := true        -- the body assigns `__options__`; otherwise the attribute of the first base is found
+  drops : List Key := []        -- `name = ...` in the body: the field taken over under this key is dropped
   deriving Repr
 
-def mkParser {V : Type} (W : World V) (c : ClassDecl V) : Parser V :=
-  let o := c.opts.normalise
-  let fs := c.fields.map fun d => let f := mkField W o d; (fieldKey W f, f)
+/-- what declaring a class leaves behind: its parser, and the `Options` its `__options__` attribute holds -/
+structure Built (V : Type) where
+  parser : Parser V
+  opts : Opts V
+  additionTyped : Bool
+  deriving Repr
+
+/-- `ClassParser.setup` = `generate_from_bases` (cls.py:223-257: the fields of the bases, in reversed `__bases__`
+order, the very same ParserField objects — they stay as the declaring class set them up) + `generate_fields`
+(cls.py:114-221: dropped names, then the fields of the body, set up under this class's options, replacing by key)
++ `generate_aliases` / `apply_fields` over all of them + `parse_addition_type` + `assign_search_strategy`. -/
+def mkParserIn {V : Type} (W : World V) (prev : List (Built V)) (c : ClassDecl V) : Built V :=
+  let base := c.bases.head?.bind fun b => prev[b]?
+  let eo : Opts V := if c.ownOpts then c.opts else (match base with | some b => b.opts | none => {})
+  let typed := if c.ownOpts then c.additionTyped else (match base with | some b => b.additionTyped | none => false)
+  let o := eo.normalise
+  let inherited := c.bases.reverse.foldl
+    (fun acc b => match prev[b]? with | some p => dupdate acc p.parser.fields | none => acc) []
+  let kept := inherited.filter fun kf => !c.drops.contains kf.1
+  let own := c.fields.map fun d => let f := mkField W o d; (fieldKey W f, f)
+  let fs := dupdate kept own
   let amap := aliasMapOf fs
   let cin := ciNamesOf fs
   let fs' := fs.map fun kf => (kf.1, { kf.2 with deps := resolveDeps fs amap kf.2.deps })
-  { fields := fs', aliasMap := amap, ciNames := cin, additionTyped := c.additionTyped
-    dataFirst := assignStrategy o cin amap
-    depsOk := fs.all fun kf => kf.2.deps.all fun dep => dhas ((dget dep amap).getD dep) fs }
+  { parser :=
+      { fields := fs', aliasMap := amap, ciNames := cin, additionTyped := typed
+        dataFirst := assignStrategy o cin amap
+        -- (a dropped name that is no key of a field taken over would be read as a new field with default `...`:
+        --  outside the modelled fragment, reported as not well-formed)
+        depsOk := (fs.all fun kf => kf.2.deps.all fun dep => (depKey fs amap dep).isSome)
+                  && c.drops.all fun k => dhas k inherited }
+    opts := eo, additionTyped := typed }
+
+/-- the declarations of a module, in order -/
+def buildAll {V : Type} (W : World V) (decls : List (ClassDecl V)) : List (Built V) :=
+  decls.foldl (fun acc c => acc ++ [mkParserIn W acc c]) []
+
+/-- a class on its own -/
+def mkParser {V : Type} (W : World V) (c : ClassDecl V) : Parser V := (mkParserIn W [] c).parser
 
 /-! ### `get_field` (base.py:138-152) -/
 
@@ -585,6 +624,13 @@ def initSchema {V : Type} [DecidableEq V] (L : Legacy) (W : World V) (c : ClassD
   let P := mkParser W c
   let o := (runtime.getD c.opts).normalise
   finish L W P o (parseData L W P o data)
+
+/-- the same for class number `target` of a sequence of declarations -/
+def initSchemaH {V : Type} [DecidableEq V] (L : Legacy) (W : World V) (decls : List (ClassDecl V)) (target : Nat)
+    (runtime : Option (Opts V)) (data : List (Key × V)) : Option (Outcome V) :=
+  (buildAll W decls)[target]?.map fun B =>
+    let o := (runtime.getD B.opts).normalise
+    finish L W B.parser o (parseData L W B.parser o data)
 
 /-- `Schema.__field_getter__` (schema.py:280-304) for a non-property field: what `inst.<attname>` gives. -/
 def getattrView {V : Type} (o : Opts V) (f : PField V) (mapping attrs : List (Key × V)) : Option V :=
